@@ -87,7 +87,7 @@ def check_C10(tier, seed, t0):
     flagged = {(v['panel'], v['site']) for v in viol}
     # framing differences only: same logical (D/C, byte) stream, different transfers / D/C events.  A different logical
     # stream is some other property's business (the theorems here are about how a given stream is framed)
-    framing = [m for m in run['mismatches'] if 'wire' in m['projs'] and 'frames' not in m['projs']]
+    framing = [m for m in run['mismatches'] if 'wire' in m['projs'] and 'frames' not in m['projs'] and 'timing' not in m['projs']]
     for v in corr_violations('C10', framing, ['wire']):
         if (v['panel'], v['site']) not in flagged:
             viol.append(v)
